@@ -2327,4 +2327,469 @@ theorem fixed_point_value (S : Strconv) (sp name : Str) (attrs : List Attr) (kid
   rw [hcv]
   exact Val.equiv_trans (image_decoded _ hDn) (norm_idem w hwf)
 
+
+/-! ### towards bytes: decoded values are `Plain`, the encoder's trees are in the C01 domain -/
+
+mutual
+theorem DecodedChild_Plain : ∀ (v : Val), DecodedChild v = true → Plain ec v = true
+  | .null, _ => rfl
+  | .bool _, _ => rfl
+  | .num _, h => by simp [DecodedChild] at h
+  | .str _, _ => rfl
+  | .list xs, h => by
+      simp only [DecodedChild, Bool.and_eq_true] at h
+      simp only [Plain, DecodedList_Plain xs h.2]
+  | .map kvs, h => by
+      simp only [DecodedChild, Bool.and_eq_true] at h
+      simp only [Plain, DecodedEntries_Plain kvs h.2]
+theorem DecodedList_Plain : ∀ (xs : List Val), DecodedList xs = true → PlainList ec xs = true
+  | [], _ => rfl
+  | x :: xs, h => by
+      simp only [DecodedList, Bool.and_eq_true] at h
+      simp only [PlainList, DecodedChild_Plain x h.1.2, DecodedList_Plain xs h.2, Bool.and_self]
+theorem DecodedEntries_Plain : ∀ (kvs : Entries), DecodedEntries kvs = true →
+    PlainEntries ec kvs = true
+  | [], _ => rfl
+  | (k, v) :: rest, h => by
+      simp only [DecodedEntries, Bool.and_eq_true] at h
+      have h1 := h.1
+      have hv : nullTextOk ec k v = true ∧ Plain ec v = true := by
+        by_cases ha : isAttrK ec k = true
+        · simp only [ha, if_true] at h1
+          cases v <;> simp only [isStr, Bool.false_eq_true] at h1
+          exact ⟨rfl, rfl⟩
+        · have ha' : isAttrK ec k = false := by simpa using ha
+          simp only [ha', Bool.false_eq_true, if_false] at h1
+          by_cases hk : k = ec.textK
+          · simp only [hk, if_true] at h1
+            cases v <;> simp only [textEntryOk, Bool.false_eq_true] at h1
+            exact ⟨rfl, rfl⟩
+          · simp only [hk, if_false] at h1
+            refine ⟨?_, DecodedChild_Plain v h1⟩
+            cases v <;> simp [nullTextOk, hk]
+      simp only [PlainEntries, hv.1, hv.2, DecodedEntries_Plain rest h.2, Bool.and_self]
+end
+
+theorem Decoded_Plain (v : Val) (h : Decoded v = true) : Plain ec v = true := by
+  unfold Decoded at h
+  simp only [Bool.and_eq_true] at h
+  exact DecodedChild_Plain v h.2
+
+theorem inDomainKids_append (S : Strconv) : ∀ (a b : List Node),
+    Conv.inDomainKids dc S a = true → Conv.inDomainKids dc S b = true →
+    Conv.inDomainKids dc S (a ++ b) = true
+  | [], _, _, hb => hb
+  | n :: a, b, ha, hb => by
+      cases n <;> simp only [List.cons_append, Conv.inDomainKids, Bool.and_eq_true] at ha ⊢
+      · exact ⟨ha.1, inDomainKids_append S a b ha.2 hb⟩
+      all_goals exact inDomainKids_append S a b ha hb
+
+/-- siblings named `key` -/
+def SibsDom (S : Strconv) (key : Str) (ns : List Node) : Prop :=
+  ∀ n ∈ ns, ∃ attrs kids, n = .elem [] key attrs kids ∧ Conv.inDomain dc S n = true
+
+theorem inDomainKids_of_sibs (S : Strconv) (key : Str) (hk : key ≠ ec.textK) :
+    ∀ (ns : List Node), SibsDom S key ns → Conv.inDomainKids dc S ns = true
+  | [], _ => rfl
+  | n :: ns, h => by
+      obtain ⟨attrs, kids, rfl, hin⟩ := h n (List.mem_cons_self ..)
+      simp only [Conv.inDomainKids, Bool.and_eq_true, elemKey_dc]
+      refine ⟨⟨⟨decide_eq_true (show key ≠ dc.textK from hk), rfl⟩, hin⟩, ?_⟩
+      exact inDomainKids_of_sibs S key hk ns (fun m hm => h m (List.mem_cons_of_mem _ hm))
+
+theorem SibsDom_single (S : Strconv) (key : Str) (n : Node) (attrs : List Attr) (kids : List Node)
+    (e : n = .elem [] key attrs kids) (h : Conv.inDomain dc S n = true) : SibsDom S key [n] := by
+  intro m hm
+  rw [List.mem_singleton] at hm
+  subst hm
+  exact ⟨attrs, kids, e, h⟩
+
+theorem inDomain_empty (S : Strconv) (key : Str) : Conv.inDomain dc S (.elem [] key [] []) = true := rfl
+
+theorem inDomain_leaf (S : Strconv) (key t : Str) :
+    Conv.inDomain dc S (.elem [] key [] [.text t]) = true := by
+  simp only [Conv.inDomain, Conv.inDomainKids, Conv.textRuns, textOf_dc, List.all_nil,
+    Bool.and_true]
+  by_cases h : (trimD t).isEmpty = true <;> simp [h]
+
+theorem attrs_inDomain (S : Strconv) (attrs : List Attr) :
+    attrs.all (fun a => decide (attrKey dc S a.name ≠ dc.textK)
+      && (!dc.seqNum || decide (attrKey dc S a.name ≠ "_seq".toList))) = true := by
+  rw [List.all_eq_true]
+  intro a _
+  simp only [attrKey_dc, Bool.and_eq_true]
+  refine ⟨decide_eq_true ?_, rfl⟩
+  intro e
+  have : dc.textK = "#text".toList := rfl
+  rw [this] at e
+  simp at e
+
+theorem inDomainKids_textNodes (S : Strconv) (vv : Entries) (kids : List Node) :
+    Conv.inDomainKids dc S (textNodes vv ++ kids) = Conv.inDomainKids dc S kids := by
+  unfold textNodes
+  split
+  · simp only [List.singleton_append, Conv.inDomainKids]
+  · rfl
+
+theorem textRuns_textNodes (vv : Entries) (kids : List Node) (hk : ∀ n ∈ kids, isElem n = true) :
+    (Conv.textRuns dc false (textNodes vv ++ kids)).length ≤ 1 := by
+  unfold textNodes
+  split
+  · simp only [List.singleton_append, Conv.textRuns, textRuns_elems dc kids _ hk]
+    split <;> simp
+  · simp [textRuns_elems dc kids _ hk]
+
+mutual
+theorem encTree_dom (S : Strconv) : ∀ (key : Str) (v : Val) (ns : List Node),
+    encTree ec key v = .ok ns → SibsDom S key ns
+  | key, .null, ns, h => by
+      simp only [encTree, Except.ok.injEq] at h; subst h
+      exact SibsDom_single S key _ _ _ rfl (inDomain_empty S key)
+  | key, .str [], ns, h => by
+      simp only [encTree, Except.ok.injEq] at h; subst h
+      exact SibsDom_single S key _ _ _ rfl (inDomain_empty S key)
+  | key, .str (c :: s), ns, h => by
+      simp only [encTree, Except.ok.injEq] at h; subst h
+      exact SibsDom_single S key _ _ _ rfl (inDomain_leaf S key _)
+  | key, .bool b, ns, h => by
+      cases b <;> simp only [encTree, fmtV, Except.ok.injEq] at h <;> subst h <;>
+        exact SibsDom_single S key _ _ _ rfl (inDomain_leaf S key _)
+  | key, .num t, ns, h => by
+      simp only [encTree, fmtV, Except.ok.injEq] at h; subst h
+      exact SibsDom_single S key _ _ _ rfl (inDomain_leaf S key _)
+  | key, .list xs, ns, h => by
+      simp only [encTree] at h
+      split at h
+      · simp only [Except.ok.injEq] at h; subst h
+        exact SibsDom_single S key _ _ _ rfl (inDomain_empty S key)
+      · exact encMembers_dom S key xs ns h
+  | key, .map vv, ns, h => by
+      obtain ⟨attrs, kids, hA, hE, rfl⟩ := encTree_map_ec key vv ns h
+      apply SibsDom_single S key _ attrs (textNodes vv ++ kids) rfl
+      simp only [Conv.inDomain, Bool.and_eq_true, decide_eq_true_eq]
+      refine ⟨⟨textRuns_textNodes vv kids (encElems_isElem ec vv kids hE), attrs_inDomain S attrs⟩, ?_⟩
+      rw [inDomainKids_textNodes]
+      exact encElems_dom S vv kids hE
+theorem encMembers_dom (S : Strconv) (key : Str) : ∀ (xs : List Val) (ns : List Node),
+    encMembers ec key xs = .ok ns → SibsDom S key ns
+  | [], ns, h => by
+      simp only [encMembers, Except.ok.injEq] at h; subst h
+      intro n hn; simp at hn
+  | x :: xs, ns, h => by
+      simp only [encMembers] at h
+      split at h
+      · simp at h
+      · rename_i a ha
+        split at h
+        · simp at h
+        · rename_i r hr
+          simp only [Except.ok.injEq] at h
+          subst h
+          intro n hn
+          rcases List.mem_append.1 hn with hn | hn
+          · exact encTree_dom S key x a ha n hn
+          · exact encMembers_dom S key xs r hr n hn
+theorem encElems_dom (S : Strconv) : ∀ (kvs : Entries) (ns : List Node),
+    encElems ec kvs = .ok ns → Conv.inDomainKids dc S ns = true
+  | [], ns, h => by
+      simp only [encElems, Except.ok.injEq] at h; subst h; rfl
+  | (k, v) :: rest, ns, h => by
+      simp only [encElems] at h
+      split at h
+      · exact encElems_dom S rest ns h
+      · rename_i hk
+        split at h
+        · simp at h
+        · rename_i a ha
+          split at h
+          · simp at h
+          · rename_i r hr
+            simp only [Except.ok.injEq] at h
+            subst h
+            have hk' : k ≠ ec.textK := by
+              intro e; simp [e] at hk
+            exact inDomainKids_append S a r
+              (inDomainKids_of_sibs S k hk' a (encTree_dom S k v a ha))
+              (encElems_dom S rest r hr)
+end
+
+
+/-! ### `EncDomain` and `image` under normalisation -/
+
+def entryDom (e : Str × Val) : Bool :=
+  if isAttrK ec e.1 || e.1 = ec.textK then isScalar e.2 else EncDomain e.2
+
+theorem EncDomainEntries_iff : ∀ (l : Entries),
+    EncDomainEntries l = true ↔ ∀ e ∈ l, entryDom e = true
+  | [] => by simp [EncDomainEntries]
+  | (k, v) :: rest => by
+      simp only [EncDomainEntries, Bool.and_eq_true, EncDomainEntries_iff rest, List.mem_cons,
+        forall_eq_or_imp, entryDom]
+
+theorem isScalar_norm (v : Val) : isScalar v.norm = isScalar v := by cases v <;> rfl
+theorem attrValue_norm (v : Val) : attrValue v.norm = attrValue v := by cases v <;> rfl
+theorem leafText_norm (v : Val) : leafText v.norm = leafText v := by cases v <;> rfl
+
+mutual
+theorem EncDomain_norm : ∀ (v : Val), EncDomain v = true → EncDomain v.norm = true
+  | .null, _ => rfl
+  | .bool _, _ => rfl
+  | .num _, _ => rfl
+  | .str _, _ => rfl
+  | .list xs, h => by
+      simp only [EncDomain] at h
+      simp only [Val.norm, EncDomain, EncDomainList_norm xs h]
+  | .map kvs, h => by
+      simp only [EncDomain, Bool.and_eq_true] at h
+      have hp := sortByKey_perm (Val.normEntries kvs)
+      simp only [Val.norm, EncDomain, Bool.and_eq_true]
+      constructor
+      · apply distinctKeys_perm hp.symm
+        rw [distinctKeys_iff, keys_normEntries]; exact (distinctKeys_iff kvs).1 h.1
+      · rw [EncDomainEntries_iff]
+        intro e he
+        exact (EncDomainEntries_iff _).1 (EncDomainEntries_norm kvs h.2) e (hp.mem_iff.1 he)
+theorem EncDomainList_norm : ∀ (xs : List Val), EncDomainList xs = true →
+    EncDomainList (Val.normList xs) = true
+  | [], _ => rfl
+  | x :: xs, h => by
+      simp only [EncDomainList, Bool.and_eq_true] at h
+      simp only [Val.normList, EncDomainList, EncDomain_norm x h.1, EncDomainList_norm xs h.2,
+        Bool.and_self]
+theorem EncDomainEntries_norm : ∀ (kvs : Entries), EncDomainEntries kvs = true →
+    EncDomainEntries (Val.normEntries kvs) = true
+  | [], _ => rfl
+  | (k, v) :: rest, h => by
+      simp only [EncDomainEntries, Bool.and_eq_true] at h
+      simp only [Val.normEntries, EncDomainEntries, Bool.and_eq_true, isScalar_norm]
+      refine ⟨?_, EncDomainEntries_norm rest h.2⟩
+      have h1 := h.1
+      split
+      · rename_i hc; simpa only [hc, if_true] using h1
+      · rename_i hc
+        simp only [hc] at h1
+        exact EncDomain_norm v h1
+end
+
+/-! the image of a normalised value is the image of the value, up to entry order -/
+
+def fAttr (e : Str × Val) : Option (Str × Val) :=
+  if isAttrK ec e.1 then some (e.1, .str ((attrValue e.2).getD [])) else none
+
+def fElem (e : Str × Val) : Option (Str × Val) :=
+  if e.1 = ec.textK || isAttrK ec e.1 then none else some (e.1, collectV (imageSibs e.2))
+
+theorem imageAttrs_filterMap : ∀ (l : Entries), imageAttrs l = l.filterMap fAttr
+  | [] => rfl
+  | (k, v) :: rest => by
+      simp only [imageAttrs, List.filterMap_cons, fAttr, imageAttrs_filterMap rest]
+      split <;> rfl
+
+theorem imageElems_filterMap : ∀ (l : Entries), imageElems l = l.filterMap fElem
+  | [] => rfl
+  | (k, v) :: rest => by
+      simp only [imageElems, List.filterMap_cons, fElem, imageElems_filterMap rest]
+      split <;> rfl
+
+theorem imageAttrs_normEntries : ∀ (l : Entries), imageAttrs (Val.normEntries l) = imageAttrs l
+  | [] => rfl
+  | (k, v) :: rest => by
+      simp only [Val.normEntries, imageAttrs, attrValue_norm, imageAttrs_normEntries rest]
+
+theorem lookup_normEntries (k : Str) : ∀ (l : Entries),
+    lookup k (Val.normEntries l) = (lookup k l).map Val.norm
+  | [] => rfl
+  | (k', v) :: rest => by
+      simp only [Val.normEntries, lookup]
+      split
+      · rfl
+      · exact lookup_normEntries k rest
+
+theorem lookup_perm {l l' : Entries} (hp : l.Perm l') (hd : (keys l).Nodup) (k : Str) :
+    lookup k l = lookup k l' := by
+  have hd' := (keys_nodup_perm hp).1 hd
+  cases h : lookup k l with
+  | some v =>
+    have := (mem_iff_lookup l' hd' k v).1 (hp.mem_iff.1 ((mem_iff_lookup l hd k v).2 h))
+    exact this.symm
+  | none =>
+    cases h' : lookup k l' with
+    | none => rfl
+    | some v =>
+      have := (mem_iff_lookup l hd k v).1 (hp.mem_iff.2 ((mem_iff_lookup l' hd' k v).2 h'))
+      rw [h] at this; simp at this
+
+theorem imageText_of_lookup {l l' : Entries}
+    (h : lookup ec.textK l = (lookup ec.textK l').map Val.norm) : imageText l = imageText l' := by
+  unfold imageText
+  rw [h]
+  cases lookup ec.textK l' with
+  | none => rfl
+  | some v => simp only [Option.map_some, leafText_norm]
+
+theorem nodup_keys_imageElems (kvs : Entries) (hd : (keys kvs).Nodup) :
+    (keys (imageElems kvs)).Nodup := by
+  induction kvs with
+  | nil => simp [imageElems, keys]
+  | cons e rest ih =>
+    obtain ⟨k, v⟩ := e
+    simp only [keys_cons, List.nodup_cons] at hd
+    simp only [imageElems]
+    split
+    · exact ih hd.2
+    · simp only [keys_cons, List.nodup_cons]
+      exact ⟨fun h => hd.1 (keys_imageElems_sub rest k h).1, ih hd.2⟩
+
+theorem nodup_keys_base (kvs : Entries) (T : Entries) (hd : (keys kvs).Nodup)
+    (hT : T = [] ∨ ∃ x, T = [(ec.textK, x)]) :
+    (keys (imageAttrs kvs ++ imageElems kvs ++ T)).Nodup := by
+  have hb : (keys (imageAttrs kvs ++ imageElems kvs)).Nodup := by
+    rw [keys_append, List.nodup_append]
+    refine ⟨nodup_keys_imageAttrs kvs hd, nodup_keys_imageElems kvs hd, ?_⟩
+    intro a ha b hb e
+    subst e
+    have h1 := (keys_imageAttrs_sub kvs a ha).2
+    have h2 := (keys_imageElems_sub kvs a hb).2
+    simp [isElemK, h1] at h2
+  rcases hT with rfl | ⟨x, rfl⟩
+  · rw [List.append_nil]; exact hb
+  · rw [keys_append, List.nodup_append]
+    refine ⟨hb, by simp [keys], ?_⟩
+    intro a ha b hb' e
+    subst e
+    simp only [keys, List.map_cons, List.map_nil, List.mem_singleton] at hb'
+    subst hb'
+    exact textK_not_mem_base kvs ha
+
+theorem normEntries_append (a b : Entries) :
+    Val.normEntries (a ++ b) = Val.normEntries a ++ Val.normEntries b := by
+  simp only [normEntries_eq_map, List.map_append]
+
+theorem perm_normEntries {a b : Entries} (hp : a.Perm b) :
+    (Val.normEntries a).Perm (Val.normEntries b) := by
+  rw [normEntries_eq_map, normEntries_eq_map]; exact hp.map _
+
+theorem finishImage_norm_congr (b b' : Entries) (t : Option Str)
+    (hp : (Val.normEntries b).Perm (Val.normEntries b'))
+    (hnd : ∀ T, (T = [] ∨ ∃ x, T = [(ec.textK, x)]) → (keys (b ++ T)).Nodup) :
+    (finishImage b t).norm = (finishImage b' t).norm := by
+  have hemp : b.isEmpty = b'.isEmpty := by
+    have := hp.length_eq
+    rw [normEntries_eq_map, normEntries_eq_map, List.length_map, List.length_map] at this
+    cases b <;> cases b' <;> simp_all
+  have key : ∀ T, (T = [] ∨ ∃ x, T = [(ec.textK, x)]) →
+      (Val.map (b ++ T)).norm = (Val.map (b' ++ T)).norm := by
+    intro T hT
+    simp only [Val.norm]
+    congr 1
+    apply sortByKey_congr
+    · rw [keys_normEntries]; exact hnd T hT
+    · rw [normEntries_append, normEntries_append]
+      exact hp.append_right _
+  cases t with
+  | none =>
+    simp only [finishImage, ← hemp]
+    split
+    · rfl
+    · have := key [] (.inl rfl)
+      simpa using this
+  | some s =>
+    simp only [finishImage, ← hemp]
+    split
+    · rfl
+    · exact key _ (.inr ⟨_, rfl⟩)
+
+mutual
+theorem imageSibs_norm : ∀ (v : Val), v.wf = true →
+    (imageSibs v.norm).map Val.norm = (imageSibs v).map Val.norm
+  | .null, _ => rfl
+  | .bool _, _ => rfl
+  | .num _, _ => rfl
+  | .str _, _ => rfl
+  | .list xs, h => by
+      simp only [Val.wf] at h
+      simp only [Val.norm, imageSibs]
+      have he : (Val.normList xs).isEmpty = xs.isEmpty := by cases xs <;> rfl
+      rw [he]
+      split
+      · rfl
+      · exact imageMembers_norm xs h
+  | .map kvs, h => by
+      simp only [Val.wf, Bool.and_eq_true] at h
+      have hnd := (distinctKeys_iff kvs).1 h.2
+      have hndm : (keys (Val.normEntries kvs)).Nodup := by rw [keys_normEntries]; exact hnd
+      have hp := sortByKey_perm (Val.normEntries kvs)
+      have hnds := (keys_nodup_perm hp.symm).1 hndm
+      simp only [Val.norm, imageSibs, List.map_cons, List.map_nil, List.cons.injEq, and_true]
+      have hT : imageText (sortByKey (Val.normEntries kvs)) = imageText kvs := by
+        apply imageText_of_lookup
+        rw [lookup_perm hp hnds, lookup_normEntries]
+      rw [hT]
+      apply finishImage_norm_congr
+      · -- entries
+        rw [normEntries_append, normEntries_append]
+        apply List.Perm.append
+        · rw [imageAttrs_filterMap (sortByKey _), ← imageAttrs_normEntries kvs,
+            imageAttrs_filterMap (Val.normEntries kvs)]
+          exact perm_normEntries (hp.filterMap _)
+        · rw [← imageElems_norm kvs h.1, imageElems_filterMap (sortByKey _),
+            imageElems_filterMap (Val.normEntries kvs)]
+          exact perm_normEntries (hp.filterMap _)
+      · intro T hT'
+        exact nodup_keys_base _ T hnds hT'
+theorem imageMembers_norm : ∀ (xs : List Val), Val.wfList xs = true →
+    (imageMembers (Val.normList xs)).map Val.norm = (imageMembers xs).map Val.norm
+  | [], _ => rfl
+  | x :: xs, h => by
+      simp only [Val.wfList, Bool.and_eq_true] at h
+      simp only [Val.normList, imageMembers, List.map_append, imageSibs_norm x h.1,
+        imageMembers_norm xs h.2]
+theorem imageElems_norm : ∀ (kvs : Entries), Val.wfEntries kvs = true →
+    Val.normEntries (imageElems (Val.normEntries kvs)) = Val.normEntries (imageElems kvs)
+  | [], _ => rfl
+  | (k, v) :: rest, h => by
+      simp only [Val.wfEntries, Bool.and_eq_true] at h
+      simp only [Val.normEntries, imageElems]
+      split
+      · exact imageElems_norm rest h.2
+      · simp only [Val.normEntries, imageElems_norm rest h.2, List.cons.injEq, Prod.mk.injEq,
+          true_and, and_true]
+        have hs := imageSibs_norm v h.1
+        have hlen : (imageSibs v.norm).length = (imageSibs v).length := by
+          have := congrArg List.length hs
+          simpa using this
+        match h1 : imageSibs v.norm, h2 : imageSibs v, hlen with
+        | [], [], _ => rfl
+        | [a], [b], _ =>
+          rw [h1, h2] at hs
+          simpa [collectV] using hs
+        | a :: a' :: r, b :: b' :: r', _ =>
+          rw [h1, h2] at hs
+          simp only [collectV, Val.norm, normList_eq_map, hs]
+        | [], _ :: _, hl => simp at hl
+        | _ :: _, [], hl => simp at hl
+        | [_], _ :: _ :: _, hl => simp at hl
+        | _ :: _ :: _, [_], hl => simp at hl
+end
+
+/-- the image of the normalised value is the image of the value, up to entry order -/
+theorem image_norm (v : Val) (hwf : v.wf = true) : image v.norm ≈ᵥ image v := by
+  have hs := imageSibs_norm v hwf
+  have hlen : (imageSibs v.norm).length = (imageSibs v).length := by
+    have := congrArg List.length hs
+    simpa using this
+  unfold image Val.equiv
+  match h1 : imageSibs v.norm, h2 : imageSibs v, hlen with
+  | [], [], _ => rfl
+  | [a], [b], _ =>
+    rw [h1, h2] at hs
+    simpa [collectV] using hs
+  | a :: a' :: r, b :: b' :: r', _ =>
+    rw [h1, h2] at hs
+    simp only [collectV, Val.norm, normList_eq_map, hs]
+  | [], _ :: _, hl => simp at hl
+  | _ :: _, [], hl => simp at hl
+  | [_], _ :: _ :: _, hl => simp at hl
+  | _ :: _ :: _, [_], hl => simp at hl
+
 end Mxj.Enc
